@@ -78,6 +78,8 @@ structure ThreadInv (sys : Sys) (s : State) (t : Tid) (th : Thread) : Prop where
     th.phase ≠ .idle ∧
     (sd.target ≠ none ∨ (th.phase.isActive = true ∧ ∃ loc, (loc, x) ∈ th.locToStub))
   fresh : th.phase = .idle → ∀ (j : Nat) (cd : CloData), s.heap[j]? = some cd → cd.creq = t → cd.tainted = false
+  /-- no call has met an unbound stub -/
+  res : th.result ≠ some .unbound
 
 structure Inv (sys : Sys) (s : State) : Prop where
   heap : ∀ (j : Nat) (cd : CloData), s.heap[j]? = some cd →
@@ -209,6 +211,7 @@ theorem ThreadInv.other {sys : Sys} {s s' : State} {t t' : Tid} {th : Thread}
     rcases e.heapNew j cd hj with h1 | ⟨_, h1⟩
     · exact h.fresh hi j cd h1 hc
     · exact absurd (hc.symm.trans h1) hne
+  res := h.res
 
 theorem sealed_of_owned_closed {s : State} {t : Tid} {a : Ref} (h : OwnedBy s t a) (hc : closed s t) :
     Sealed s a := by
